@@ -72,6 +72,21 @@ impl Gate {
 /// (which gives up the last handle of another span - that span's whole close then runs nested inside this one).
 type NestedJob = Box<dyn FnOnce() + Send>;
 static NESTED: Mutex<Option<(u64, i64, NestedJob)>> = Mutex::new(None);
+/// User code inside `on_event`: when layer 2 sees an event on thread `.0`, it runs `.1` (which gives up a span handle - from
+/// inside a collector callback, i.e. inside the `get_default` closure of the emitting macro).
+static EVJOB: Mutex<Option<(u64, NestedJob)>> = Mutex::new(None);
+fn run_evjob_if_armed() {
+    let job = {
+        let mut g = EVJOB.lock().unwrap();
+        match g.as_ref() {
+            Some((t, _)) if *t == vh_common::rec::vt() => g.take().map(|x| x.1),
+            _ => None,
+        }
+    };
+    if let Some(j) = job {
+        j();
+    }
+}
 /// User code inside `on_close` that panics: layer 2 panics (once) when it is told that span `.1` closes on thread `.0`.
 static BOOM: Mutex<Option<(u64, i64)>> = Mutex::new(None);
 fn boom_if_armed(tok: i64) {
@@ -190,6 +205,9 @@ where
         let parent = ctx.event_span(e).map(|s| tok_of::<L, C>(&s)).unwrap_or(0);
         let current = ctx.lookup_current().map(|s| tok_of::<L, C>(&s)).unwrap_or(0);
         self.log.lock().unwrap().push(json!({"vt": vh_common::rec::vt(), "reg": self.reg, "layer": L, "call": "event", "parent": parent, "chain": chain, "pw": pw, "current": current}));
+        if L == 2 {
+            run_evjob_if_armed();
+        }
     }
 }
 
@@ -490,6 +508,7 @@ fn child() {
                 let unwind = step["unwind"].as_bool().unwrap_or(false);
                 let front = step["front"].as_bool().unwrap_or(false);
                 let boom = step["boom"].as_bool().unwrap_or(false);
+                let inside_event = step["inside"].as_str() == Some("event");
                 let job = move |_: &mut Ctx| {
                     // which of the references goes does not matter to the history; `front` gives up the oldest one, so
                     // that a raw reference can be the last
@@ -502,6 +521,14 @@ fn child() {
                                 panic!("unwinding through the owner of a span handle");
                             }));
                             assert!(r.is_err());
+                        }
+                        // the handle is given up by user code inside a layer's on_event (an event emitted by this thread)
+                        H::S(sp) if inside_event => {
+                            let nested: NestedJob = Box::new(move || drop(sp));
+                            *EVJOB.lock().unwrap() = Some((vh_common::rec::vt(), nested));
+                            tracing::event!(Level::INFO, "carrier");
+                            // (a collector that filtered the carrier event out never ran the job: the handle goes now)
+                            drop(EVJOB.lock().unwrap().take());
                         }
                         // the outermost layer's on_close panics for this span, if this drop closes it; the owner catches the panic
                         H::S(sp) if boom => {
